@@ -7,9 +7,11 @@ from props import PROPS, NOT_APPLICABLE, ENGINES
 
 BASE = json.load(open("/root/.vp/BASELINE.json"))["cmd"] if os.path.exists("/root/.vp/BASELINE.json") else ""
 ids = [json.loads(l)["id"] for l in open(os.path.join(VERIF, "properties.jsonl"))]
+ready_file = os.path.join(VERIF, "lib", "ready.txt")
+READY = set(open(ready_file).read().split()) if os.path.exists(ready_file) else set(PROPS)
 checks = []
 for pid in ids:
-    if pid not in PROPS:
+    if pid not in PROPS or pid not in READY:
         continue
     c = PROPS[pid]
     checks.append(dict(
@@ -23,7 +25,7 @@ for pid in ids:
         level_note=c["level_note"],
         technique=c.get("technique", "Lean 4 theorems over an executable model + differential correspondence run of the model driver against the real code"),
     ))
-na = [dict(property_id=p, reason=NOT_APPLICABLE.get(p, "check not built yet in this round; see DESIGN.md")) for p in ids if p not in PROPS]
+na = [dict(property_id=p, reason=NOT_APPLICABLE.get(p, "check not built yet in this round; see DESIGN.md")) for p in ids if p not in PROPS or p not in READY]
 man = dict(
     version=1,
     setup_cmd="bin/setup",
